@@ -38,14 +38,15 @@ pub struct Shared {
   base: *mut u8,
   len: usize,
   bitmap_words: usize,
+  result_words: usize,
 }
 
 unsafe impl Sync for Shared {}
 
 impl Shared {
-  fn new(bitmap_bits: usize) -> Shared {
+  fn new(bitmap_bits: usize, result_words: usize) -> Shared {
     let bitmap_words = (bitmap_bits + 63) / 64;
-    let len = std::mem::size_of::<Header>() + bitmap_words * 8;
+    let len = std::mem::size_of::<Header>() + bitmap_words * 8 + result_words * 8;
     let base = unsafe {
       libc::mmap(
         std::ptr::null_mut(),
@@ -59,7 +60,7 @@ impl Shared {
     if base == libc::MAP_FAILED {
       panic!("pool: mmap of shared region failed");
     }
-    Shared { base: base as *mut u8, len, bitmap_words }
+    Shared { base: base as *mut u8, len, bitmap_words, result_words }
   }
   fn hdr(&self) -> &Header {
     unsafe { &*(self.base as *const Header) }
@@ -69,6 +70,17 @@ impl Shared {
       std::slice::from_raw_parts(
         self.base.add(std::mem::size_of::<Header>()) as *const AtomicU64,
         self.bitmap_words,
+      )
+    }
+  }
+}
+
+impl Shared {
+  fn results(&self) -> &[AtomicU64] {
+    unsafe {
+      std::slice::from_raw_parts(
+        self.base.add(std::mem::size_of::<Header>() + self.bitmap_words * 8) as *const AtomicU64,
+        self.result_words,
       )
     }
   }
@@ -127,6 +139,14 @@ impl<'a> Ctx<'a> {
     let _ = writeln!(self.out, "{}", line);
     let _ = self.out.flush();
   }
+  /// Store a per-case 64-bit result (requires PoolOpts.result_words >= number of slots used).
+  #[inline]
+  pub fn result(&mut self, index: u64, value: u64) {
+    let r = self.shared.results();
+    if (index as usize) < r.len() {
+      r[index as usize].store(value, Ordering::Relaxed);
+    }
+  }
   pub fn has_key(&self, key: &str) -> bool {
     self.seen.contains_key(key)
   }
@@ -164,6 +184,8 @@ pub struct PoolOpts {
   pub samples_per_child: usize,
   pub deadline: Option<Duration>,
   pub max_crashes: u64,
+  /// number of u64 per-case result slots (0 = none); returned in PoolResult.results
+  pub result_words: usize,
   /// where children write their stdout (serial port / cache diagnostics of the subject)
   pub quiet_stdout: bool,
 }
@@ -178,6 +200,7 @@ impl Default for PoolOpts {
       samples_per_child: 1,
       deadline: None,
       max_crashes: 256,
+      result_words: 0,
       quiet_stdout: true,
     }
   }
@@ -211,6 +234,7 @@ pub struct PoolResult {
   pub capped: bool,
   pub machinery_errors: Vec<String>,
   pub wall: Duration,
+  pub results: Vec<u64>,
 }
 
 impl PoolResult {
@@ -250,6 +274,7 @@ impl PoolResult {
       capped: false,
       machinery_errors: Vec::new(),
       wall: Duration::from_secs(0),
+      results: Vec::new(),
     }
   }
 }
@@ -305,7 +330,7 @@ where
 {
   let t0 = Instant::now();
   let seq = POOL_SEQ.fetch_add(1, Ordering::Relaxed);
-  let shared = Shared::new(opts.bitmap_bits.max(64));
+  let shared = Shared::new(opts.bitmap_bits.max(64), opts.result_words);
   let dir = tmp_dir();
   let n_chunks = (n_cases + opts.chunk - 1) / opts.chunk;
   let workers = opts.workers.min(n_chunks.max(1) as usize).max(1);
@@ -433,10 +458,30 @@ where
 
   let mut crash_records: Vec<(u64, String)> = Vec::new();
   while !live.is_empty() {
+    // wait for one of OUR children only (the process may have other children, e.g. the
+    // other build's worker process): poll the live set
     let mut status: i32 = 0;
-    let pid = unsafe { libc::waitpid(-1, &mut status, 0) };
+    let mut pid: i32 = 0;
+    for p in live.keys() {
+      let r = unsafe { libc::waitpid(*p, &mut status, libc::WNOHANG) };
+      if r == *p {
+        pid = r;
+        break;
+      }
+      if r < 0 {
+        pid = -*p;
+        break;
+      }
+    }
+    if pid == 0 {
+      unsafe { libc::usleep(300) };
+      continue;
+    }
     if pid < 0 {
-      break;
+      // child vanished (reaped elsewhere): treat as a machinery problem
+      live.remove(&(-pid));
+      result.machinery_errors.push("a pool child could not be waited for".to_string());
+      continue;
     }
     let (slot, _gen) = match live.remove(&pid) {
       Some(v) => v,
@@ -508,6 +553,7 @@ where
     result.counters[i] = h.counters[i].load(Ordering::Relaxed);
   }
   result.distinct = shared.bitmap().iter().map(|w| w.load(Ordering::Relaxed).count_ones() as u64).sum();
+  result.results = shared.results().iter().map(|w| w.load(Ordering::Relaxed)).collect();
 
   // merge child files
   let mut first: BTreeMap<String, J> = BTreeMap::new();
@@ -551,4 +597,32 @@ where
   }
   result.wall = t0.elapsed();
   result
+}
+
+/// Cross-process lock serialising the subject's mprotect-heavy operations (code cache
+/// creation and block translation).  In this sandbox concurrent mprotect(PROT_EXEC) calls
+/// from several processes collapse to a small fraction of the single-process throughput;
+/// taking turns restores it.  Purely a harness-side scheduling measure.
+pub fn xlock() -> i32 {
+  static mut FD: i32 = -1;
+  unsafe {
+    if FD < 0 {
+      let base = std::env::var("GBMC_TMP").unwrap_or_else(|_| "/verif/target/tmp".to_string());
+      let _ = std::fs::create_dir_all(&base);
+      let path = std::ffi::CString::new(format!("{}/xlock", base)).unwrap();
+      FD = libc::open(path.as_ptr(), libc::O_CREAT | libc::O_RDWR, 0o644);
+    }
+    if FD >= 0 && std::env::var("GBMC_NO_XLOCK").is_err() {
+      libc::flock(FD, libc::LOCK_EX);
+    }
+    FD
+  }
+}
+
+pub fn xunlock(fd: i32) {
+  if fd >= 0 {
+    unsafe {
+      libc::flock(fd, libc::LOCK_UN);
+    }
+  }
 }
